@@ -779,6 +779,8 @@ class ConciliationState(_WorkingState):
 
         :return: the next Supvisors state.
         """
+        # apply the running failure strategies to the processes lost with a Supvisors instance
+        super()._master_next()
         # check if jobs are in progress
         if self.supvisors.starter.in_progress() or self.supvisors.stopper.in_progress():
             return SupvisorsStates.CONCILIATION
